@@ -239,7 +239,7 @@ func runC19(c *CaseCtx) {
 func init() {
 	register(&Check{
 		ID: "C19", Level: "exploration",
-		NCases: func(t string) int { return tier(t, 64, 1200) },
+		NCases: func(t string) int { return tier(t, 64, 600) },
 		Run:    runC19,
 		Rule: "[also: drain steps delete exactly the keys ever put, then Merge, re-put, GetAll] case = one generated history (unconstrained write/read transactions incl. failing ones, reopen points, values that nearly fill a segment) executed under every combination RWMode x StartFileLoadingMode x SyncEnable, x {KeyVal, KeyOnly, sparse} for KV-only single-bucket histories (24 configurations) or KeyVal only for list/set/sorted-set histories (8 configurations); " +
 			"every call's result (value or error class) and the full observation after a final reopen must be identical across configurations (no model; SPop excluded because it is random by design); non-trivial = >=10 steps; distinct by history hash",
